@@ -119,3 +119,102 @@ V('c01-twin-hide-expr', 'C01', 'R1.4', STATE,
 V('c01-twin-reversed', 'C01', 'R1.2', SEL,
   'sorted(expunged_uids, reverse=True)', 'reversed(sorted(expunged_uids))',
   expect='silent')
+
+# ---------------------------------------------------------------- C02
+V('c02-append-no-log', 'C02', 'R2.1', DICTMBX,
+  '''            self._messages[new_uid] = message
+            self._mod_sequences.update([new_uid])
+            self._updated.set()''', '''            self._messages[new_uid] = message
+            self._updated.set()''')
+V('c02-delete-no-notify', 'C02', 'R2.1', DICTMBX,
+  '''            self._mod_sequences.expunge(uids)
+            self._updated.set()''', '''            self._mod_sequences.expunge(uids)''')
+V('c02-copy-log-wrong-recv', 'C02', 'R2.1', DICTMBX,
+  '''            new_msg = Message.copy(message, uid=dest_uid, recent=recent)
+            destination._messages[dest_uid] = new_msg
+            destination._mod_sequences.update([dest_uid])
+            destination._updated.set()
+        return dest_uid
+
+    async def move''', '''            new_msg = Message.copy(message, uid=dest_uid, recent=recent)
+            destination._messages[dest_uid] = new_msg
+            self._mod_sequences.update([dest_uid])
+            destination._updated.set()
+        return dest_uid
+
+    async def move''')
+V('c02-move-expunge-as-update', 'C02', 'R2.1', DICTMBX,
+  '''            self._mod_sequences.expunge([uid])
+            self._updated.set()
+        async with destination''', '''            self._mod_sequences.update([uid])
+            self._updated.set()
+        async with destination''')
+V('c02-claim-no-log', 'C02', 'R2.1', DICTMBX,
+  '''                uids.append(msg_uid)
+        self._mod_sequences.update(uids)
+        self._updated.set()''', '''                uids.append(msg_uid)
+        if uids:
+            self._updated.set()''')
+V('c02-revert-fix', 'C02', 'R2.2', DICTMBX,
+  '''        if not msg.expunged:
+            self._mod_sequences.update([uid])
+            self._updated.set()
+        return msg''', '''        self._mod_sequences.update([uid])
+        self._updated.set()
+        return msg''')
+V('c02-await-in-window', 'C02', 'R2.3', DICTMBX,
+  '''        selected.mod_sequence = self._mod_sequences.highest
+        if mod_sequence is None:''', '''        selected.mod_sequence = self._mod_sequences.highest
+        await asyncio.sleep(0)
+        if mod_sequence is None:''')
+V('c02-return-unmerged', 'C02', 'R2.4', SESS,
+  '''        return messages, await mbx.update_selected(selected)''',
+  '''        return messages, selected''')
+V('c02-load-updates-skips', 'C02', 'R2.4', SESS,
+  '''            return await mbx.update_selected(selected)
+        return selected''', '''            return selected
+        return selected''')
+V('c02-no-remove', 'C02', 'R2.5', SEL,
+  '''        self._messages._update(messages)
+        self._messages._remove(expunged, self._hide_expunged)''',
+  '''        self._messages._update(messages)''')
+V('c02-set-messages-no-expunged', 'C02', 'R2.5', SEL,
+  '''        expunged = self._messages._uids - uids
+        return self.add_updates(messages, expunged)''',
+  '''        expunged = uids - self._messages._uids
+        return self.add_updates(messages, expunged)''')
+V('c02-maildir-filtered', 'C02', 'R2.6', 'pymap/backend/maildir/mailbox.py',
+  '''        all_messages = [msg async for msg in self.messages()]
+        selected.set_messages(all_messages)''',
+  '''        all_messages = [msg async for msg in self.messages()
+                        if not msg.recent]
+        selected.set_messages(all_messages)''')
+# twins
+V('c02-twin-readlock-window', 'C02', 'R2.3', DICTMBX,
+  '''        mod_sequence = selected.mod_sequence
+        selected.mod_sequence = self._mod_sequences.highest
+        if mod_sequence is None:
+            all_messages = list(self._messages.values())
+            selected.add_updates(all_messages, [])
+        else:''', '''        mod_sequence = selected.mod_sequence
+        selected.mod_sequence = self._mod_sequences.highest
+        if mod_sequence is None:
+            async with self.messages_lock.read_lock():
+                all_messages = list(self._messages.values())
+            selected.add_updates(all_messages, [])
+        else:''', expect='silent')
+V('c02-twin-helper', 'C02', 'R2.1', DICTMBX,
+  '''            self._messages[new_uid] = message
+            self._mod_sequences.update([new_uid])
+            self._updated.set()
+            return message''', '''            self._messages[new_uid] = message
+            self._changed(new_uid)
+            return message
+
+    def _changed(self, uid: int) -> None:
+        self._mod_sequences.update([uid])
+        self._updated.set()''', expect='silent')
+V('c02-twin-local-return', 'C02', 'R2.4', SESS,
+  '''        return messages, await mbx.update_selected(selected)''',
+  '''        merged = await mbx.update_selected(selected)
+        return messages, merged''', expect='silent')
